@@ -559,6 +559,27 @@ func runPol(c *h.Ctx, pc PolCase) {
 			return
 		}
 		c.P.Class("pol/dagjson")
+		// text level: the SAME document followed by something. Either the whole text is one DAG-JSON value
+		// (blank tail) and is read as such, or it is rejected - never read up to the end of the first value
+		// with the rest dropped
+		for _, tail := range []string{" ", "\n", "]", ` [["==",".zz",1]]`, "\n" + string(js), ",[]", " garbage", "}", "\x00", "0", `"`, " null"} {
+			text := string(js) + tail
+			pt, err := policy.FromDagJson(text)
+			if err != nil {
+				continue
+			}
+			whole, werr := ipld.Decode([]byte(text), dagjson.Decode)
+			if werr != nil {
+				c.Fail("C14/policy/dagjson-trailing-content-dropped", "FromDagJson accepts a text that is not ONE DAG-JSON value (a strict decode fails: %v); the part after the first value is silently dropped\ntext: %q", werr, text)
+				return
+			}
+			bt, err := pt.ToIPLD()
+			if err != nil || !val.EqualNodes(bt, normalisePolicyNode(whole)) {
+				c.Fail("C14/policy/dagjson-roundtrip", "FromDagJson(%q) -> ToIPLD differs from the document", text)
+				return
+			}
+			c.P.Class("pol/dagjson-tail-accepted")
+		}
 	}
 	// constructor-built policy survives an IPLD round trip with identical matching behaviour
 	if !mutated {
